@@ -589,7 +589,7 @@ fn dict(entries: Vec<(&str, Object)>) -> Dictionary {
 }
 
 /// A seeded document with every kind of item: strings directly in dictionaries, nested in arrays and
-/// dictionaries, an indirect string object, strings in a stream's dictionary, content / binary / empty
+/// dictionaries, an indirect string object, strings in a stream's dictionary (every second document), content / binary / empty
 /// streams, the document metadata stream, an object with a large object number (three distinct key
 /// bytes) and one with a non-zero generation number.  `xref_obj`: also an (in-memory only) XRef stream.
 fn gen_doc(rng: &mut Rng, xref_obj: bool, huge_id: bool) -> Document {
@@ -653,23 +653,23 @@ fn gen_doc(rng: &mut Rng, xref_obj: bool, huge_id: bool) -> Document {
             x
         })),
     );
-    o.insert(
-        (7, 0),
-        Object::Stream(Stream::new(
-            dict(vec![
-                ("Type", name("EmbeddedFile")),
-                (
-                    "Params",
-                    Object::Dictionary(dict(vec![
-                        ("CheckSum", Object::String((0..16).map(|_| rng.byte()).collect(), StringFormat::Hexadecimal)),
-                        ("Desc", Object::String(b"a description of sixteen bytes or more".to_vec(), StringFormat::Literal)),
-                    ])),
-                ),
-                ("Note", string(rng)),
-            ]),
-            data(rng, false),
-        )),
-    );
+    // every second document has strings inside a stream dictionary
+    let sd = if rng.chance(1, 2) {
+        dict(vec![
+            ("Type", name("EmbeddedFile")),
+            (
+                "Params",
+                Object::Dictionary(dict(vec![
+                    ("CheckSum", Object::String((0..16).map(|_| rng.byte()).collect(), StringFormat::Hexadecimal)),
+                    ("Desc", Object::String(b"a description of sixteen bytes or more".to_vec(), StringFormat::Literal)),
+                ])),
+            ),
+            ("Note", string(rng)),
+        ])
+    } else {
+        dict(vec![("Type", name("EmbeddedFile")), ("Params", Object::Dictionary(dict(vec![("Size", Object::Integer(3))])))])
+    };
+    o.insert((7, 0), Object::Stream(Stream::new(sd, data(rng, false))));
     o.insert((8, 0), string(rng));
     o.insert((9, 0), Object::Array(vec![string(rng), Object::Integer(42), Object::Dictionary(dict(vec![("K", string(rng))]))]));
     o.insert((10, 0), Object::Stream(Stream::new(Dictionary::new(), vec![])));
@@ -1075,6 +1075,7 @@ fn record_one(out: &mut Out, line: &Line, g: &Group, rng: &mut Rng, huge: bool) 
     let p = ed.get(b"P").ok().and_then(|o| o.as_i64().ok()).unwrap_or(0);
     let fk_l = state.file_encryption_key().to_vec();
     let t = &line.terms;
+    let mut perms_plain = false;
 
     // ---- the writer's observables, each recomputed from the inputs lopdf was given / the random parts it chose
     let mut w: Env = HashMap::new();
@@ -1114,7 +1115,17 @@ fn record_one(out: &mut Out, line: &Line, g: &Group, rng: &mut Rng, huge: bool) 
         match t.bytes("r.perms", &mut pe) {
             Ok(d) if d.len() == 16 => {
                 w.insert("rnd".into(), Val::B(d[12..].to_vec()));
-                cmp(out, "Perms", "", t.bytes("Perms", &mut w), &perms_l);
+                let want = t.bytes("Perms", &mut w);
+                // is what lopdf stored the *unencrypted* block of Algorithm 10 (a)-(e)?
+                let mut q = w.clone();
+                if let Ok(x) = &want {
+                    q.insert("Perms".into(), Val::B(x.clone()));
+                }
+                perms_plain = matches!(t.bytes("r.perms", &mut q), Ok(pl) if perms_l.len() == 16 && pl[..12] == perms_l[..12]);
+                match want {
+                    Ok(x) => out.obs("Perms", "", "", 1, (x != perms_l) as usize, if perms_plain { "stored-plaintext" } else { "" }),
+                    Err(e) => out.obs("Perms", "", "", 1, 1, &e),
+                }
             }
             Ok(_) | Err(_) => out.obs("Perms", "", "", 1, 1, "Perms cannot be decrypted"),
         }
@@ -1187,7 +1198,7 @@ fn record_one(out: &mut Out, line: &Line, g: &Group, rng: &mut Rng, huge: bool) 
         r.insert("fk".into(), Val::B(fk));
         if cfg.r >= 5 {
             let ok = t.truth("r.perms.ok", &mut r);
-            out.obs("r.perms.ok", role, "", 1, (ok != Ok(true)) as usize, &format!("{ok:?}"));
+            out.obs("r.perms.ok", role, "", 1, (ok != Ok(true)) as usize, if perms_plain { "stored-plaintext" } else { "" });
         }
         for (path, pi) in &pm {
             let Some(ei) = em.get(path) else { continue };
@@ -1430,19 +1441,35 @@ fn gen_one(out: &mut Out, line: &Line, g: &Group, rng: &mut Rng, huge: bool, var
                 let bad = judge_plain(&l);
                 let empty = json!([]);
                 out.put(json!({"ev": "open", "user": g.user, "owner": g.owner, "try": empty, "route": "auto", "variant": variant,
-                               "authU": "na", "authO": "na", "res": "auto", "err": "", "fk": "na", "bad": bad, "nitems": pm.len()}));
+                               "authU": "na", "authO": "na", "res": "auto", "err": "", "fk": "na", "bad": bad, "nitems": pm.len(), "permsPlainOpens": "na"}));
                 None
             }
         }
         Ok(Err(e)) => {
             // load_mem failed as a whole: judged as the attempt with the empty password (the only one the loader makes)
+            let mut ppo = "na";
+            if cfg.r >= 5 {
+                let mut q: Env = HashMap::new();
+                q.insert("fk".into(), Val::B(fk.clone()));
+                q.insert("Perms".into(), Val::B(vals["Perms"].clone()));
+                let plainblock = t.bytes("r.perms", &mut q).expect("r.perms");
+                let mut e2 = enc.clone();
+                if let Some(Object::Dictionary(ed)) = e2.objects.get_mut(&enc_id) {
+                    ed.set("Perms", Object::String(plainblock, StringFormat::Hexadecimal));
+                }
+                let mut b2 = vec![];
+                ppo = match guarded(|| e2.save_to(&mut b2).ok().and_then(|_| Document::load_mem(&b2).ok())) {
+                    Ok(Some(l)) if judge_plain(&l).iter().all(|k| *k == "str.streamdict") => "yes",
+                    _ => "no",
+                };
+            }
             out.put(json!({"ev": "open", "user": g.user, "owner": g.owner, "try": json!([]), "route": "load", "variant": variant,
-                           "authU": "na", "authO": "na", "res": "err", "err": lopdf_err(&e), "fk": "na", "bad": Vec::<&str>::new(), "nitems": pm.len()}));
+                           "authU": "na", "authO": "na", "res": "err", "err": lopdf_err(&e), "fk": "na", "bad": Vec::<&str>::new(), "nitems": pm.len(), "permsPlainOpens": ppo}));
             None
         }
         Err(p) => {
             out.put(json!({"ev": "open", "user": g.user, "owner": g.owner, "try": json!([]), "route": "load", "variant": variant,
-                           "authU": "na", "authO": "na", "res": "panic", "err": p, "fk": "na", "bad": Vec::<&str>::new(), "nitems": pm.len()}));
+                           "authU": "na", "authO": "na", "res": "panic", "err": p, "fk": "na", "bad": Vec::<&str>::new(), "nitems": pm.len(), "permsPlainOpens": "na"}));
             None
         }
     };
@@ -1480,8 +1507,24 @@ fn gen_one(out: &mut Out, line: &Line, g: &Group, rng: &mut Rng, huge: bool, var
             Ok(Err(e)) => ("err", lopdf_err(&e), vec![]),
             Err(p) => ("panic", p, vec![]),
         };
+        // diagnosis for revisions 5-6: does the same attempt succeed when /Perms holds the unencrypted block?
+        let mut ppo = "na";
+        if cfg.r >= 5 && res == "err" {
+            let mut q: Env = HashMap::new();
+            q.insert("fk".into(), Val::B(fk.clone()));
+            q.insert("Perms".into(), Val::B(vals["Perms"].clone()));
+            let plainblock = t.bytes("r.perms", &mut q).expect("r.perms");
+            let mut d2 = base.clone();
+            if let Some(Object::Dictionary(ed)) = d2.objects.get_mut(&enc_id) {
+                ed.set("Perms", Object::String(plainblock, StringFormat::Hexadecimal));
+            }
+            ppo = match guarded(|| d2.decrypt(&pw)) {
+                Ok(Ok(())) if judge_plain(&d2).iter().all(|k| *k == "str.streamdict") => "yes",
+                _ => "no",
+            };
+        }
         out.put(json!({"ev": "open", "user": g.user, "owner": g.owner, "try": c["try"], "route": route, "variant": variant,
-                       "authU": au, "authO": ao, "res": res, "err": err, "fk": fkq, "bad": bad, "nitems": pm.len(),
+                       "authU": au, "authO": ao, "res": res, "err": err, "fk": fkq, "bad": bad, "nitems": pm.len(), "permsPlainOpens": ppo,
                        "expUser": c["expUser"], "expOwner": c["expOwner"]}));
     }
 }
